@@ -4,7 +4,7 @@ import ast
 from ..mutate import Mutant, in_func, delete_stmt
 from ..report import AnalysisError
 from ..srcmodel import unparse, norm, walk_no_nested, calls_in
-from .common import is_method_call, get_kw, recv_of, cfg_of, only_reached_from
+from .common import is_method_call, get_kw, recv_of, cfg_of, only_reached_from, thorough
 from . import evalrules as er
 from . import tr
 
@@ -287,18 +287,40 @@ def r4(repo, run):
             f.class_objs[('NodePath', a)] = _regex_attr(repo, 'NodePath', a)
         args = [('class', 'NodePath'), text] if fi.is_classmethod else [text]
         return fde_guard(lambda: f.call(fi, *args) if validate is None else f.call(fi, *args, validate=validate))
-    for text, want in VALID_PATHS.items():
+    valid, invalid = dict(VALID_PATHS), list(INVALID_PATHS)
+    if thorough():
+        # reference grammar: path = (name | index) ( '.' name | index )*, name = [A-Za-z0-9_]+, index = '[' -?digits ']'
+        # every path of up to 3 tokens over a small alphabet is well formed; a junk character inserted anywhere (unless the result is
+        # well formed again) must be rejected
+        import itertools, re
+        names, idxs = ['a', 'b1', '_x', '7'], [('[0]', 0), ('[-1]', -1), ('[12]', 12)]
+        ref = re.compile(r'^(?:[A-Za-z0-9_]+|\[-?[0-9]+\])(?:\.[A-Za-z0-9_]+|\[-?[0-9]+\])*$')
+        toks = [(n, n, True) for n in names] + [(t, v, False) for t, v in idxs]
+        for n in (1, 2, 3):
+            for combo in itertools.product(toks, repeat=n):
+                text, comps = '', []
+                for j, (t, v, is_name) in enumerate(combo):
+                    text += ('.' if (is_name and j > 0) else '') + t
+                    comps.append(v)
+                valid[text] = comps
+        for text in list(valid)[:400:3]:
+            for pos in range(len(text) + 1):
+                for junk in (' ', '-', '/', ']', '[', '..'):
+                    bad_text = text[:pos] + junk + text[pos:]
+                    if not ref.match(bad_text) and bad_text not in invalid and len(invalid) < 1500:
+                        invalid.append(bad_text)
+    for text, want in valid.items():
         r = run_one(text, None)
         rows += 1
         if r.raised or list(r.ret or []) != want:
             bad.append('the well-formed path %r gives %s (expected %r)' % (text, ('raises ' + str(r.raised)) if r.raised else list(r.ret or []), want))
     gap = suffix = 0
-    for text in INVALID_PATHS:
+    for text in invalid:
         r = run_one(text, None)
         rows += 1
         if r.raised != 'ValueError':
-            bad.append('the malformed path %r is accepted as %s: text %s the components is ignored, so a mistyped reference silently denotes another node' % (text, list(r.ret or []) if not r.raised else 'error ' + str(r.raised), 'after' if text in ('a.b-c', 'a[1', 'a]', 'a.b[1]x y') else 'before / between'))
-    run.table('C09.R4', rows, 'split_path over %d well-formed and %d malformed path strings' % (len(VALID_PATHS), len(INVALID_PATHS)))
+            bad.append('the malformed path %r is accepted as %s: text %s the components is ignored, so a mistyped reference silently denotes another node' % (text, list(r.ret or []) if not r.raised else 'error ' + str(r.raised), 'after' if text in ('a.b-c', 'a[1', 'a]', 'a.b[1]x y') else 'before / between / after'))
+    run.table('C09.R4', rows, 'split_path over %d well-formed and %d malformed path strings' % (len(valid), len(invalid)))
     if bad:
         run.violation('C09.R4', fi, 'path text validation', '; '.join(bad[:3]))
     else:
